@@ -1,7 +1,7 @@
 use itertools::Itertools;
 use samlang_ast::{lir, mir};
 use samlang_heap::{Heap, PStr};
-use std::collections::{BTreeMap, HashSet};
+use std::collections::{BTreeMap, HashMap, HashSet};
 
 use crate::{lir_unused_name_elimination, mir_tail_recursion_rewrite};
 
@@ -225,7 +225,7 @@ impl<'a> LoweringManager<'a> {
       }
       mir::Statement::Break(e) => vec![lir::Statement::Break(self.lower_expression(e))],
       mir::Statement::While { loop_variables, statements, break_collector } => {
-        let loop_variables = loop_variables
+        let mut loop_variables = loop_variables
           .into_iter()
           .map(|mir::GenenalLoopVariable { name, type_, initial_value, loop_value }| {
             lir::GenenalLoopVariable {
@@ -236,7 +236,27 @@ impl<'a> LoweringManager<'a> {
             }
           })
           .collect_vec();
-        let statements = self.lower_stmt_block(statements);
+        let mut statements = self.lower_stmt_block(statements);
+        // All loop values are computed from the values of the finished iteration, but the backends
+        // assign the loop variables one after another. A loop value that reads a loop variable
+        // assigned before it must therefore read a copy made before the assignments.
+        let mut copies = HashMap::new();
+        for i in 1..loop_variables.len() {
+          let (assigned, rest) = loop_variables.split_at_mut(i);
+          if let lir::Expression::Variable(n, _) = &mut rest[0].loop_value
+            && let Some(v) = assigned.iter().find(|v| v.name == *n)
+          {
+            *n = *copies.entry(v.name).or_insert_with(|| {
+              let copy = self.heap.alloc_temp_str();
+              statements.push(lir::Statement::Cast {
+                name: copy,
+                type_: v.type_.clone(),
+                assigned_expression: lir::Expression::Variable(v.name, v.type_.clone()),
+              });
+              copy
+            });
+          }
+        }
         let break_collector = if let Some(mir::VariableName { name, type_ }) = break_collector {
           Some((name, self.lower_type(type_)))
         } else {
